@@ -633,18 +633,28 @@ CHECKS["C12"].update({
              "argument layouts, the three description layouts, defaults, any space/tab indent), printSchemaTA_conservative, custom_directives_erased, and the "
              "compositions text_roundtrip_final / text_roundtrip_custom_final / text_roundtrip_custom_build (hypotheses on s and apps only: the text parses "
              "to a document that builds a schema equal to s up to the order of definitions; applied directives INCLUDED: print_build_roundtrip_custom). "
-             "deprecationReason_erase / build*_erase (the builder model reads directive applications only through @deprecated; BuildIgnoresCustomStatement for "
-             "ARBITRARY documents is evaluated by the driver, not proved). h5_* / h12_width_boundary state the description findings. "
+             "build_ignores_custom / build_ignores_custom_full (FULL, every document - valid or not, with type and schema extensions - every value of "
+             "ignore_extensions and additional_types: build doc = build (doc.map eraseCustom), the builder model reads directive applications only through "
+             "@deprecated). THE PRINTER MODELS ARE ONE: printSchemaTA_eq_printSchema (FULL: the String-level model, made total and list-based, and the Text-level "
+             "model print the same code points for every option set, schema and directive assignment whose PRINTED applications consist of lexemes - "
+             "models_differ_on_empty_lexeme shows the hypothesis is needed; no hypothesis without applied directives: printSchemaT_eq_printSchema), "
+             "runHistory_texts (every output of every call history is the Text model's text), print_schema_text_parses_string / text_roundtrip_string (the "
+             "text theorems about the model the history correspondence compares). LONG DESCRIPTION LINES (wrapped_lines, modelled exactly in both models): "
+             "wrapped_description_lexes (FULL: a description inside descWrapOK - descTextOK without its width clause, shape conditions asked of the wrapped "
+             "lines - is printed, at every depth and space/tab indent, as text the lexer model reads as exactly ONE BlockString token whose value is the wrapped "
+             "lines joined by line feeds), descWrapOK_extends, wrapped_short_value, and h12_value_differs (finding H12 on the model: the value read back is not "
+             "the description); the statement is also evaluated against the real code (driver op wrapDesc: the description read back from to_string equals the "
+             "model's wrapped value, named probes + a long-description stream). h5_* / h12_width_boundary state the other description findings. "
              "Every history also runs in ONE forked child and every call alone in a fresh child; direct oracles dump(build(to_string(s))) == dump(s), "
              "fixpoint, parser accepts, root names differing only by case, non-root types named Query/Mutation/Subscription, exotic strings, look-alike "
              "numeric ID defaults, description edge cases."),
     "note": ("Trusted: Lean kernel; generators; the library constants of include_introspection are re-read, not modelled. The text-level theorems do not cover "
-             "include_introspection=True (its library descriptions are re-wrapped: finding H12, and its output is not rebuildable: C12/1); the String-level "
-             "and Text-level printer models are tied to each other by the correspondence (driver ops printT / printTA compare both with the real text) unless "
-             "a printSchemaTA_eq_* theorem is listed below. Known findings H2, H5, H6, H8, H12, C12/1, C12/5, C12/6, C12/7 (see known_findings.json). "
+             "include_introspection=True (its library descriptions are re-wrapped: finding H12, and its output is not rebuildable: C12/1); the PARSE half "
+             "for re-wrapped descriptions is proved per description (wrapped_description_lexes), not yet composed into a whole-schema theorem for "
+             "include_introspection. Known findings H2, H5, H6, H8, H12, C12/1, C12/5, C12/6, C12/7 (see known_findings.json). "
              "Repaired: H1, H3, H9, H11."),
     "technique": ("Lean 4 proof (printer purity over call histories and all options, document- and text-level round trip with applied directives, "
-                  "builder blind to custom applications) + exact-text correspondence of the printer models + fresh-process reference + round-trip oracle"),
+                  "builder blind to custom applications, equality of the two printer models, re-wrapped descriptions lex to one block string) + exact-text correspondence of the printer models + fresh-process reference + round-trip oracle"),
 })
 CHECKS["C03"].update({
     "text": ("String level: quoted_roundtrip (lexAll (jsonDumps v) is exactly the String token v, all code-point lists) and block_roundtrip (FULL: for every "
@@ -652,16 +662,17 @@ CHECKS["C03"].update({
              "value back; layout lemmas splitLines/joinLF, commonIndent shift, stripBlank). Document level: Lean model of the whole ASTPrinter (every print_*, "
              "_wrap/_join/_block/_indent, indent int or string, include_descriptions): print_tokens_*, print_parse_type / print_parse_value_full / "
              "print_parse_executable (exact), print_parse_document_modulo_members / print_parse_document_exact, and at TEXT level, quantified over EVERY text "
-             "the lexer and parser models accept, every flag combination with no_location and EVERY indentation (IndentOK: any string over space/tab, "
-             "which covers mkCfg of every int and every space/tab string): print_parse_modulo_members, "
+             "the lexer and parser models accept, every flag combination with no_location and EVERY indentation (IndentOK: any string over space/tab; "
+             "print_parse_every_indent_arg / print_parse_loss_every_indent_arg instantiate it for the `indent` ARGUMENT: every int - negative ints print like "
+             "0 - and every space/tab string; indent_content_refuted shows any other character is content): print_parse_modulo_members, "
              "print_stable, print_parse_exact, and the headline print_parse (the full statement except the pinned finding R4, with the exclusion as the "
              "predicate HasMemberDescription) with print_parse_iff (the exclusion is EXACT: a parsed tree round-trips iff it has no member description) and "
              "print_parse_loss (what is lost is only that; printing the re-parsed tree gives the same text); parser_output_ok is the bridge from parser output "
              "to the printer's well-formedness conditions. print_parse_refuted + r4_* = machine-checked witness of R4 (pinned by test_schema_kitchen_sink). "
              "print_total, float_lexeme_spec, print_deep_list / print_deep_list_type (the model printer is total at every nesting depth). Tied by EXACT-TEXT "
              "correspondence of the pipeline text -> lexAll -> parse -> print with print_ast on generated executable and type-system documents, fixtures and "
-             "mutants for 7 indent settings, the direct round-trip / stability oracle, call histories on shared printer instances and a deep-nesting stream "
-             "per recursive position with measured boundaries."),
+             "mutants for 7 indent settings, the direct round-trip / stability oracle, call histories on shared printer instances, a deep-nesting stream "
+             "per recursive position with measured boundaries, and a deterministic indent-domain block (negative, odd and large widths, mixed space/tab strings)."),
     "note": ("Trusted: Lean kernel; generators. include_descriptions=False is outside the statement. Known findings R4 (member descriptions dropped by the AST "
              "printer; why the unrestricted round trip is 'modulo members'), R7 (print_ast raises RecursionError on deeply nested documents the parser accepts; "
              "a divergence of the recursive implementation from the total model). Repaired: R1, R2, R3, R5, R6."),
